@@ -141,3 +141,39 @@ Definition check_conc (c : list sev * hobs) : bool :=
 
 Definition mismatches_conc (cs : list (list sev * hobs)) : list nat :=
   mismatches_from check_conc 0 cs.
+
+(* --- a component NAMED like the verdict key ----------------------------------------------------
+   The model keeps component names (numbers) apart from the result map's "overall" key.  In the Go
+   result map both are strings: a component registered under the very name of the verdict key has
+   its own entry overwritten by the verdict (written last), so the body of the answer does not list
+   it.  Status code, overall flag and IsReady are those of the model all the same.  The harness
+   says which component number (if any) carries that name in a case: [sh]; the listed components
+   are then compared with the model's minus that one.  With [sh = None] these are the definitions
+   above. *)
+Definition comps_listed (sh : option name) (s : hstate) : hstate :=
+  match sh with Some n => remove_key n s | None => s end.
+
+Definition obs_matches_sh (sh : option name) (s : hstate) (o : hobs) : bool :=
+  let m := status_of s in
+  Nat.eqb (st_code m) (o_code o) && Bool.eqb (st_overall m) (o_overall o)
+  && same_map (comps_listed sh (st_comps m)) (o_comps o) && Bool.eqb (is_ready s) (o_isready o).
+
+Fixpoint check_case_sh (sh : option name) (s : hstate) (c : list (hop * hobs)) : bool :=
+  match c with
+  | [] => true
+  | (o, ob) :: r => let s' := hstep s o in obs_matches_sh sh s' ob && check_case_sh sh s' r
+  end.
+
+Definition mismatches_sh (cs : list (option name * list (hop * hobs))) : list nat :=
+  mismatches_from (fun c => check_case_sh (fst c) [] (snd c)) 0 cs.
+
+Definition check_conc_sh (c : option name * (list sev * hobs)) : bool :=
+  match exec_req (fst (snd c)) [] None with
+  | (_, Some m) =>
+      Nat.eqb (st_code m) (o_code (snd (snd c))) && Bool.eqb (st_overall m) (o_overall (snd (snd c)))
+      && same_map (comps_listed (fst c) (st_comps m)) (o_comps (snd (snd c)))
+  | (_, None) => false
+  end.
+
+Definition mismatches_conc_sh (cs : list (option name * (list sev * hobs))) : list nat :=
+  mismatches_from check_conc_sh 0 cs.
